@@ -8,7 +8,7 @@ def srv_nontrivial(line, go):
 
 SUITES = {
     "server": {
-        "n_quick": 500, "n_thorough": 6000,
+        "n_quick": 400, "n_thorough": 6000,
         "nontrivial": srv_nontrivial,
     },
 }
@@ -23,7 +23,8 @@ _SRV_ASSUME = [
 _RULE = ("scenarios: 1-6 requests with random HPACK representation choices, HEADERS/CONTINUATION splits at random bytes, padding, "
          "priority sections, DATA chunkings, trailers, interleavings, handler completion orders, buffered/streamed responses, "
          "WINDOW_UPDATE/SETTINGS/PING/PRIORITY sprinkles; one quarter with a message-level offence, one quarter with a frame-level "
-         "offence (catalogue in harness/cmd/h2v/server_gen.go); lockstep: after each event the harness waits for quiescence "
+         "offence (catalogue in harness/cmd/h2v/server_gen.go), 1 in 16 with the stream loop held at a tick gate while the read loop "
+         "runs ahead (optionally into a connection error), 1 in 50 with ~280 streams (closed-ring wrap, late frames); lockstep: after each event the harness waits for quiescence "
          "(hook counters) and records frames, dispatches and gauges; non-trivial = the server sent HEADERS, RST_STREAM or GOAWAY")
 
 
